@@ -129,6 +129,36 @@ def modHist (kind : Int) (k : Tensor FVal) (t : Option (Tensor FVal)) (masks : L
     | none => "err BadOp"
   else "err BadOp"
 
+
+/-- integer (bool) tensor from two groups, `none` when ill-formed -/
+def mkI (shape data : List Int) : Option (Tensor Int) :=
+  if shape.all (· ≥ 0) then mkT shape data else none
+
+def optI (flag : Int) (shape data : List Int) : Option (Option (Tensor Int)) :=
+  if flag = 0 then some none else (mkI shape data).map some
+
+def optStr (r : Option (Tensor FVal)) : String :=
+  match r with
+  | some o => okV o
+  | none => "err RuntimeError"
+
+/-- `-1` encodes a `None` entry of `CreateSamplingMask(shape=…)` -/
+def decodeShapeOpt (flag : Int) (vals : List Int) : Option (List (Option Nat)) :=
+  if flag = 0 then none else some (vals.map fun v => if v < 0 then none else some v.toNat)
+
+def pipelineStr (opt : Option (List (Option Nat))) (useSeed : Bool) (fn : List Int) (m : Tensor FVal)
+    (pad : Option (Tensor Int)) (k : Tensor FVal) : String :=
+  match createMaskShape opt k.shape with
+  | none => "err IndexError"
+  | some shp =>
+    if k.shape.getLast? ≠ some 2 then "err AssertionError" else
+    match pipelineMasked (fun _ _ => m) opt useSeed fn pad k with
+    | none => "err RuntimeError"
+    | some (o, mk) =>
+      if o.data.any (fun v => !v.wf) then "err NaN" else
+      "ok " ++ fmtGroups [o.shape.map Int.ofNat, encodeVals o.data, mk.shape.map Int.ofNat, encodeVals mk.data,
+        shp.map Int.ofNat, [b2i (seedOf useSeed fn).isSome], (seedOf useSeed fn).getD []]
+
 def step (op : String) (gs : List (List Int)) : String :=
   match op, gs with
   | "mask", [[kind], ms, md, ks, kd] =>
@@ -177,6 +207,37 @@ def step (op : String) (gs : List (List Int)) : String :=
                             else { input := some k, mask := none, target := none }
       modResStr [applyMaskModule s]
     | none => "err BadOp"
+  | "harddc", [ms, md, ys, yd, ps, pd, [hasPad], pads, padd, [hasT], ts, td] =>
+    match mkI ms md, mkV ys yd, mkV ps pd, optI hasPad pads padd, optI hasT ts td with
+    | some m, some y, some p, some pad, some tgt => optStr (sslOutput m y p pad tgt)
+    | _, _, _, _, _ => "err BadOp"
+  | "pipeline", [[optFlag], optVals, [useSeed], fn, ms, md, [hasPad], pads, padd, ks, kd] =>
+    match mkV ms md, optI hasPad pads padd, mkV ks kd with
+    | some m, some pad, some k => pipelineStr (decodeShapeOpt optFlag optVals) (useSeed != 0) fn m pad k
+    | _, _, _ => "err BadOp"
+  | "acsmul", [ms, md, ks, kd] =>
+    match mkI ms md, mkV ks kd with
+    | some m, some k => resStr (acsKspace m k)
+    | _, _ => "err BadOp"
+  | "maskhist", gs =>
+    -- a call history on one persistent object: groups are (mask shape, mask data, k shape, k data) per call
+    let rec parse : List (List Int) → Option (List (Tensor Int × Tensor FVal))
+      | [] => some []
+      | ms :: md :: ks :: kd :: rest =>
+        match mkI ms md, mkV ks kd, parse rest with
+        | some m, some k, some tl => some ((m, k) :: tl)
+        | _, _, _ => none
+      | _ => none
+    match parse gs with
+    | none => "err BadOp"
+    | some calls =>
+      let rs := maskHistory calls
+      match rs.find? (fun r => match r with | .ok _ => false | _ => true) with
+      | some r => resStr r
+      | none =>
+        let outs := rs.filterMap fun r => match r with | .ok o => some o | _ => none
+        if outs.any (fun o => o.data.any (fun v => !v.wf)) then "err NaN"
+        else "ok " ++ fmtGroups (outs.flatMap fun o => [o.shape.map Int.ofNat, encodeVals o.data])
   | "bshape", [a, b] =>
     -- numpy broadcast of two shapes (the index arithmetic all theorems rest on), tied to np.broadcast_shapes
     if a.any (· < 0) || b.any (· < 0) then "err BadOp" else
